@@ -4315,7 +4315,7 @@ fn check_service_name(fullname: &str) -> Result<()> {
     let remaining: Vec<&str> = fullname[..fullname.len() - DOMAIN_LEN].split('.').collect();
     let name = remaining.last().ok_or_else(|| e_fmt!("No service name"))?;
 
-    if &name[0..1] != "_" {
+    if !name.starts_with('_') {
         return Err(e_fmt!("Service name must start with '_'"));
     }
 
